@@ -49,14 +49,26 @@ func planSortInterface(p *Prog, in *inliner, plan *roundPlan) {
 					return true
 				}
 				vals := map[string]string{}
+				prelude := ""
+				_, isStmt := p.parents[call].(*ast.ExprStmt)
 				for _, e := range lit.Elts {
 					kv, isKV := e.(*ast.KeyValueExpr)
 					if !isKV {
 						return true
 					}
 					k, isId := kv.Key.(*ast.Ident)
-					if !isId || !isPlainOperand(kv.Value) {
+					if !isId {
 						return true
+					}
+					if !isPlainOperand(kv.Value) {
+						// a computed field value is evaluated once, where the literal is built: a local of its own
+						if !isStmt {
+							return true
+						}
+						tmp := "_srt_" + k.Name
+						prelude += tmp + " := " + in.text(kv.Value.Pos(), kv.Value.End()) + "\n"
+						vals[k.Name] = tmp
+						continue
 					}
 					vals[k.Name] = in.text(kv.Value.Pos(), kv.Value.End())
 				}
@@ -171,6 +183,9 @@ func planSortInterface(p *Prog, in *inliner, plan *roundPlan) {
 					if x, isX := sel.X.(*ast.Ident); isX && x.Name != "sort" {
 						txt = strings.Replace(txt, "sort.", x.Name+".", 1)
 					}
+				}
+				if prelude != "" {
+					txt = "{\n" + prelude + txt + "\n}"
 				}
 				fe := in.file(call.Pos())
 				fe.edits = append(fe.edits, textEdit{start: in.off(call.Pos()), end: in.off(call.End()), text: txt})
